@@ -23,7 +23,7 @@ def run(ck):
                    "scipy.linalg.expm of the dense GKSL generator is the reference for the 'exact exponential' (oracle only)",
                    "positivity of the exact GKSL semigroup (Lindblad's theorem) is assumed, not proved",
                    "the truncation bound m e^{(m-1)x}(e^x - T_L(x)) is evaluated in floating point with the spectral norm of dt*generator"]
-    ck.prove(PROPS, extra_modules=["QV.Drive.Prop"], also=["QV.Props.C02Energy", "QV.Props.C02Deph"])
+    ck.prove(PROPS, extra_modules=["QV.Drive.Prop"], also=["QV.Props.C02Energy", "QV.Props.C02Deph", "QV.Props.C02Basis"])
     lines, impl, tol = [], [], []
     cv = lambda a: SY.cvals(numpy, a)
 
